@@ -169,7 +169,7 @@ package polynomial
 //@ option panics-allowed
 //@ option index-panics-allowed
 //@ option opaque-calls
-//@ option inline-callees _clone Clone Fold
+//@ option opaque _clone Clone Fold
 //@ nullable p
 //@ loop 0
 //@ + invariant[input] forall(j, 0, len(m), m[j] == old(m[j]))
